@@ -102,6 +102,12 @@ fn main() {
         // helper process of C19: a database reader that is a process of its own
         std::process::exit(c19::reader_main(&args[2..]));
     }
+    if args.len() >= 5 && args[1] == "c09-corpus" {
+        // seed corpus for the libFuzzer targets: kverif c09-corpus <dir> <n> <seed>
+        let n = c09::write_corpus(std::path::Path::new(&args[2]), args[3].parse().unwrap_or(200), args[4].parse().unwrap_or(1)).expect("write corpus");
+        println!("wrote {n} corpus files");
+        return;
+    }
     if args.len() < 3 {
         usage();
     }
